@@ -115,9 +115,9 @@ func cmdCheck(args []string) int {
 	}
 	tmp, _ := os.MkdirTemp("", "govc")
 	defer os.RemoveAll(tmp)
-	cfg := eng.SolverCfg{Dir: tmp, Quick: 3 * time.Second, Full: 20 * time.Second}
+	cfg := eng.SolverCfg{Dir: tmp, Quick: 4 * time.Second, Full: 90 * time.Second}
 	if *tier == "thorough" {
-		cfg = eng.SolverCfg{Dir: tmp, Quick: 5 * time.Second, Full: 60 * time.Second, TwoAgree: true}
+		cfg = eng.SolverCfg{Dir: tmp, Quick: 6 * time.Second, Full: 120 * time.Second, TwoAgree: true}
 	}
 	var results []*eng.FuncResult
 	var undecided []string
